@@ -100,7 +100,7 @@ fn apply(p: &Prog, e: &Edit) -> (Prog, Vec<(usize, Fate)>, Vec<usize>) {
                         true
                     }
                 }
-                Shape::Distinct { .. } | Shape::JoinDerived { .. } => false,
+                Shape::Distinct { .. } | Shape::JoinDerived { .. } | Shape::Process { .. } => false,
             };
             if changed && q.streams[i] != p.streams[i] {
                 fates[i].1 = Fate::Changed;
@@ -136,7 +136,7 @@ fn apply(p: &Prog, e: &Edit) -> (Prog, Vec<(usize, Fate)>, Vec<usize>) {
             let mut s = (**s).clone();
             // the new stream reads a base type (derived sources would need index remapping)
             match &mut s {
-                Shape::Filter { src, .. } | Shape::Agg { src, .. } | Shape::Distinct { src } | Shape::Limit { src, .. } => {
+                Shape::Filter { src, .. } | Shape::Agg { src, .. } | Shape::Distinct { src } | Shape::Limit { src, .. } | Shape::Process { src } => {
                     if matches!(src, Src::Stream(_)) {
                         *src = Src::Ty("A".into());
                     }
